@@ -100,6 +100,16 @@ def grid_clause(model, rep, funcs):
                 extra = " -> for odd sizes bin +floor(n/2) is labelled -ceil(n/2): the mask is not even in k"
             rep.ob("L", a, f"per-axis frequency index grid is FFT-ordered (0..ceil(n/2)-1, -floor(n/2)..-1) for {parity} box sizes", ok, det + extra,
                    node=f.node, fn=f, clause="1 grid", stmt=f"def {f.name} #{parity}")
+        # evenness on every box shape needs the signed index set of every axis to be closed under negation: {-k..k} for n = 2k+1 is,
+        # {-k..k-1} for n = 2k is not (the Nyquist bin -k is its own mirror image but carries a signed frequency), unless the mask is symmetrised
+        ev = results.get("even", (None, ""))[0]
+        if ev is True:
+            sym = any(("np.ix_" in norm_src(n_) or "[::-1" in norm_src(n_)) for a2 in MASK_SIBLINGS for n_ in ([funcs[a2].node] if funcs.get(a2) is not None else []))
+            rep.ob("L", a, "the signed index set of every axis is closed under negation, or the mask is symmetrised afterwards (k -> -k symmetry for even box sizes too)",
+                   None if sym else False,
+                   "for n = 2k the grid holds -k but not +k: the Nyquist bin is its own mirror image, yet the wedge predicate is evaluated at the signed frequency "
+                   "-k/n, so M[k] != M[-k mod n] on the Nyquist planes of even axes and masking a real image leaves an imaginary part", node=f.node, fn=f,
+                   clause="3 evenness", stmt=f"def {f.name} nyquist closure")
     if len(set(recipes.values())) > 1:
         rep.ob("S11", "index grids", "the three index-grid siblings use the same recipe", False, f"{recipes}", clause="1 grid", stmt="grid siblings")
     elif recipes:
